@@ -585,7 +585,9 @@ def _append_nans(result, axis, first=False):
 
     axis: `int`
     """
-    nan_slice = np.empty_like(result.take([0], axis=axis)) # make a slice ...
+    shape = list(result.shape)
+    shape[axis] = 1
+    nan_slice = np.empty(shape, dtype=result.dtype) # make a slice (also when result is empty along axis)...
     nan_slice.fill(np.nan) # ...filled with NaNs
 
     # Insert as first element
